@@ -159,6 +159,38 @@ def mutable_uses_of_param(body, idx):
     return out
 
 
+def fs_helper_kind(ctx, call):
+    """'metadata' for std::fs::metadata or a local function wrapping it (-> Result<Option<Metadata>, _>), 'exists' for a local function
+    that answers whether a path exists (-> Result<bool, _>, reaching the metadata query); found by signature and callees, wherever it lives"""
+    F = ctx.F
+    if call.qname == 'std::fs::metadata':
+        return 'metadata'
+    if call.qname == 'pie::resource::file::OpenRead::exists':
+        return 'exists'
+    cb = F.callee_body(call)
+    if cb is None or cb.crate != 'pie' or cb.kind != 'Fn':
+        return None
+    cache = F.__dict__.setdefault('_fs_helper', {})
+    if cb.id not in cache:
+        def reaches_md(b_, depth=0):
+            for c_ in b_.calls.values():
+                if c_.qname == 'std::fs::metadata':
+                    return True
+                x_ = F.callee_body(c_)
+                if x_ is not None and x_.crate == 'pie' and x_.id != b_.id and depth < 3 and reaches_md(x_, depth + 1):
+                    return True
+            return False
+        rt = cb.local_ty(0)
+        kind = None
+        if reaches_md(cb):
+            if 'std::option::Option<std::fs::Metadata>' in rt:
+                kind = 'metadata'
+            elif rt.startswith('std::result::Result<bool'):
+                kind = 'exists'
+        cache[cb.id] = kind
+    return cache[cb.id]
+
+
 def observers(ctx, body, depth=0, seen=None):
     """kinds of observation a checker method makes (transitively through pie functions)"""
     F = ctx.F
@@ -174,8 +206,8 @@ def observers(ctx, body, depth=0, seen=None):
                 out.add('M')
             elif q.startswith('sha2::') or q in ('std::io::copy',):
                 out.add('H')
-            elif q in ('pie::resource::file::exists', 'pie::resource::file::OpenRead::exists') or (q == 'std::option::Option::is_some' and any(
-                    xx.qname in ('pie::resource::file::metadata', 'std::fs::metadata') for xx in ancestors(x, x.orig_operand(c.args[0])).values())):
+            elif fs_helper_kind(ctx, c) == 'exists' or (q == 'std::option::Option::is_some' and any(
+                    fs_helper_kind(ctx, xx) == 'metadata' for xx in ancestors(x, x.orig_operand(c.args[0])).values())):
                 out.add('E')
             cb = F.callee_body(c)
             if cb is not None and cb.crate == 'pie' and cb.id != body.id:
@@ -217,7 +249,7 @@ def rule_file_checkers(ctx):
         if name == 'stamp_writer':
             # content / metadata of the descriptor is used only after the path was confirmed to exist, and reading starts at offset 0
             file_uses = [c for c in b.calls.values() if not b.blocks[c.bb]['cleanup'] and any(any(o.kind == 'arg' and o.key == 3 for o in b.orig_operand(a)) for a in c.args)]
-            ex = {c.bb for c in b.find_calls(lambda c: c.qname in ('pie::resource::file::exists', 'pie::resource::file::metadata', 'std::fs::metadata')
+            ex = {c.bb for c in b.find_calls(lambda c: fs_helper_kind(ctx, c) is not None and c.args
                                              and all(o.kind == 'arg' and o.key == 2 for o in b.orig_operand(c.args[0])))}
             if file_uses:
                 bad = [u for u in file_uses if b.must_before(u.bb, ctx.both(inf, lambda n: n in ex)) is not None]
@@ -245,6 +277,14 @@ def rule_file_checkers(ctx):
                         cmps.append((('e', bb, k), gd, 'Ne' if c.qname.endswith('ne') else 'Eq', [b.orig_operand(a) for a in c.args]))
             somes = [d[1] for l, ds in b.defs.items() for d in ds if d[0] == 'stmt' and d[3]['k'] == 'aggr' and d[3]['ak'].get('variant') == 'Some' and 'Option' in d[3]['ak'].get('adt', '')]
             nones = [d[1] for l, ds in b.defs.items() for d in ds if d[0] == 'stmt' and d[3]['k'] == 'aggr' and d[3]['ak'].get('variant') == 'None' and 'Option' in d[3]['ak'].get('adt', '')]
+            # only the Option that is returned counts (an Option built on the way, e.g. `Some(modified_time)` of the observation, does not)
+            ret_aggr = set()
+            for d_ in b.defs.get(0, []):
+                if d_[0] == 'stmt' and d_[3]['k'] == 'aggr' and d_[3]['ak'].get('variant') == 'Ok' and d_[3]['ops']:
+                    ret_aggr |= {o_.key[0] for o_ in b.orig_operand(F.operand(d_[3]['ops'][0])) if o_.kind == 'aggr' and not o_.path}
+            if ret_aggr:
+                somes = [x for x in somes if x in ret_aggr]
+                nones = [x for x in nones if x in ret_aggr]
             differ_edges = {e for e, gd, opn, sides in cmps if gd.truth() == (opn == 'Ne')}
             same_edges = {e for e, gd, opn, sides in cmps if gd.truth() == (opn == 'Eq')}
             stamp_cmp = any(any(all(o.kind == 'arg' and o.key == 4 for o in s) and s for s in sides) for _, _, _, sides in cmps)
@@ -318,7 +358,8 @@ def rule_file_checkers(ctx):
         if b.crate != 'pie' or b.is_test_code() or b.kind != 'AssocFn':
             continue
         news = b.find_calls(lambda c: c.qname == 'sha2::Digest::new')
-        readers = [i for i in range(1, b.argc + 1) if 'BufReader' in b.local_ty(i) or 'std::fs::File' in b.local_ty(i) or 'Read' in b.local_ty(i)]
+        readers = [i for i in range(1, b.argc + 1) if 'BufReader' in b.local_ty(i) or 'std::fs::File' in b.local_ty(i) or 'Read' in b.local_ty(i)
+                   or b.local_ty(i).lstrip('&').replace('mut ', '', 1).strip() in b.generics]  # `fn hash_file<R: Read>(r: &mut R)`
         if not news or not readers:
             continue
         cps = b.find_calls(lambda c: c.qname == 'std::io::copy')
@@ -397,7 +438,7 @@ def rule_file_checkers(ctx):
         why = 'variants built: %s' % sorted(built)
         if good:
             req = {v: nb.edges_required_for(bb) for v, bb in built.items()}
-            md_none = any(gd.kind == 'enum' and gd.variants() == frozenset(['None']) and any(c.name == 'metadata' for c in gd.subject_calls()) for gd in req['NonExistent'])
+            md_none = any(gd.kind == 'enum' and gd.variants() == frozenset(['None']) and any(fs_helper_kind(ctx, c) == 'metadata' for c in gd.subject_calls()) for gd in req['NonExistent'])
             is_file_t = any(gd.kind == 'bool' and gd.truth() is True and any(c.qname == 'std::fs::Metadata::is_file' for c in gd.subject_calls()) for gd in req['File'])
             is_file_f = any(gd.kind == 'bool' and ((gd.truth() is False and any(c.qname == 'std::fs::Metadata::is_file' for c in gd.subject_calls())) or
                                                    (gd.truth() is True and any(c.qname == 'std::fs::Metadata::is_dir' for c in gd.subject_calls()))) for gd in req['Directory'])
